@@ -7,7 +7,7 @@ HOOKS = {
     "add_only": True,
 }
 ENGINES = [
-    {"name": "grid", "path": "/verif/mc/props", "serves_properties": ["C01", "C02", "C04", "C05", "C06", "C07", "C12", "C16", "C17"],
+    {"name": "grid", "path": "/verif/mc/props", "serves_properties": ["C01", "C02", "C04", "C05", "C06", "C07", "C12", "C15", "C16", "C17"],
      "kind_free_text": "complete Cartesian products of finite input alphabets executed on the real code and compared with an explicit oracle or metamorphic relation"},
     {"name": "fault", "path": "/verif/mc/props/C08.py", "serves_properties": ["C08"],
      "kind_free_text": "fault-point enumerator: public-API fault menu x position and sys.settrace call-level injection, snapshot oracle"},
@@ -186,5 +186,16 @@ CHECKS["C13"] = dict(
          "far. Menu of 23 cross-representations (mesh, convex hull, 5- and 6-tetrahedra, Triangle sheets for H, converters, shifted / "
          "beyond-360 angle ranges, hollow difference, Sphere=Dipole outside, N-gon->Circle with err*N^2 constant for N=8..1024).",
     note="rel. tolerance 1e-8 of max(|X|,|J|); observers have generic coordinates on no cut plane.")
+CHECKS["C15"] = dict(
+    engine="grid", level="exploration", design_ref="DESIGN.md §4 C15",
+    technique="bounded-exhaustive enumeration of exact special-set observers and their nextafter / subnormal neighbourhoods per class, with a SIGALRM time limit per call",
+    text="For 12 sources and 8 degenerate sources accepted by the setters, the exact special sets (corners, edges, faces, rim, hull, bases, "
+         "axis, wedge apex, cut planes, sphere surface, face/edge/vertex of triangles, edge extension lines, wire, segment extension "
+         "lines, Dipole position, r/r0 = 0.05) are enumerated as complete lattices of +-{0,1,2,4,16} ulp in every coordinate, with "
+         "subnormal / 1e-310 / 1e-160 / 1e-100 / 1e-30 offsets, edge vicinities 1e-14..1e-7 and distances 1e3..1e12 (~53k distinct "
+         "points); each set is evaluated for B/H/J/M in the identity and a generic pose as one batch (vector routines), as the first 9 "
+         "rows (scalar routines) and row by row; the call must return within 10 s with the documented shape and finite values.",
+    note="Non-finite values are accepted only at the Dipole position, vertices of Triangle-based sources and within 1e-100 of a 1/r^3 or "
+         "1/d singularity. A timeout kills only that case.")
 _todo = "check not built yet in this session (planned, see DESIGN.md §4); nothing is claimed for it"
 NOT_APPLICABLE = [{"property_id": f"C{i:02d}", "reason": _todo} for i in range(1, 21) if f"C{i:02d}" not in CHECKS]
